@@ -206,7 +206,7 @@ class C10(PropBase):
     def gen(self, rng, tier, focus=None):
         out = []
         per = 40 if tier == "quick" else 800
-        for kind in BOUNDARY:
+        for kind in BOUNDARY + ["report_scale", "priced"]:
             for _ in range(per):
                 out.append(self.mk(rng, kind))
         n = 1500 if tier == "quick" else 30000
@@ -278,6 +278,19 @@ class C10(PropBase):
             a = sel[0]
             eqa = a.rsplit(":", 1)[0] if ":" in a and rng.random() < 0.6 else a + ":sub"
         cfg["equity_account"] = eqa
+        # report display settings must not influence the export: figures are exact, never converted
+        if kind == "report_scale" or (kind == "random" and rng.random() < 0.15):
+            mx = rng.choice([0, 0, 1, 2, 2, 3, 5])
+            cfg["scale_min"] = rng.randrange(0, mx + 1)
+            cfg["scale_max"] = mx
+        if kind == "priced" or (kind == "random" and rng.random() < 0.1):
+            tgt = rng.choice(comms)
+            db = "".join("P 2019-0%d-01T00:00:00Z %s %s %s\n" % (k + 1, c, r, tgt)
+                         for k, (c, r) in enumerate([(c, r) for c in common.COMMS[:4] if c != tgt
+                                                     for r in ("2", "0.5")][:6]))
+            if db:
+                cfg["price"] = {"db": db, "lookup": rng.choice(["last-price", "txn-time"])}
+                cfg["report_commodity"] = tgt
         if sel is not None:
             sel = list(dict.fromkeys(sel))
             cfg["sel_equity"] = [re.escape(a) for a in sel]
@@ -322,8 +335,12 @@ class C10(PropBase):
         t["last"] = None
         return t
 
+    DISPLAY_KEYS = ("scale_min", "scale_max", "price", "report_commodity")
+
     def impl_case(self, case):
         c = {"op": "run", "cfg": case.get("cfg", {}), "text": case["text"], "want": ["equity", "balance", "txns"]}
+        if any(k in c["cfg"] for k in self.DISPLAY_KEYS):
+            c["neutral"] = True
         if case.get("filter") is not None:
             c["filter"] = case["filter"]
         return c
@@ -340,7 +357,16 @@ class C10(PropBase):
 
     # -- the implementation is run twice: the export text is fed back as a journal (lax, no audit)
     def run_impl(self, impl_cases):
-        first = common.run_driver([common.TK_IMPL], impl_cases)
+        first = common.run_driver([common.TK_IMPL], [{k: v for k, v in c.items() if k != "neutral"} for c in impl_cases])
+        # the source's exact balance report and listing come from a run with neutral display settings
+        nidx = [i for i, c in enumerate(impl_cases) if c.get("neutral")]
+        ncases = [dict({k: v for k, v in impl_cases[i].items() if k != "neutral"},
+                       cfg={k: v for k, v in impl_cases[i]["cfg"].items() if k not in self.DISPLAY_KEYS},
+                       want=["balance", "txns"]) for i in nidx]
+        for i, a in zip(nidx, common.run_driver([common.TK_IMPL], ncases)):
+            if isinstance(first[i], dict) and first[i].get("r") == "OK" and isinstance(a, dict) and a.get("r") == "OK":
+                first[i]["out"]["balance"] = a["out"]["balance"]
+                first[i]["out"]["txns"] = a["out"]["txns"]
         idx, second = [], []
         for i, a in enumerate(first):
             if not isinstance(a, dict) or a.get("r") != "OK":
